@@ -550,6 +550,22 @@ def build_unit(ws, unit_name):
             elif d.startswith("final"):
                 m = re.match(r'final\s+(\d+)\s+"([^"]*)"', d)
                 pending["finals"][int(m.group(1))] = m.group(2)
+            elif d.startswith("tail"):
+                # text placed in front of the body's trailing expression (after the last top-level statement)
+                pending["tail"] = []
+                pending["cur"] = pending["tail"]
+            elif d.startswith("loopafter"):
+                # `loopafter k`: text placed right after the k-th loop (after its closing brace)
+                k = int(d.split()[1])
+                pending.setdefault("loopafters", {})[k] = []
+                pending["cur"] = pending["loopafters"][k]
+            elif d.startswith("loopend"):
+                # `loopend k`: text placed at the end of the k-th loop's body; `loopend? k`: if that loop exists
+                k = int(d.split()[1])
+                pending.setdefault("loopends", {})[k] = []
+                if d.split()[0] == "loopend?":
+                    pending.setdefault("optional_loops", set()).add(k)
+                pending["cur"] = pending["loopends"][k]
             elif d.startswith("loop"):
                 # `loop k`: the k-th loop must exist; `loop? k`: annotate it if the body (still) has one
                 k = int(d.split()[1])
@@ -611,6 +627,20 @@ def build_unit(ws, unit_name):
                 else:
                     body, n = re.subn(a, b, body, flags=re.S)
                 applied.append({"kind": kind, "from": a, "to": b, "count": n})
+            # loop ends first (closing braces, from the last position to the first), then loop headers
+            if p.get("loopends") or p.get("loopafters"):
+                hdrs = loop_headers(body)
+                ends = []
+                for kind in ("loopends", "loopafters"):
+                    for k in p.get(kind, {}):
+                        if k > len(hdrs):
+                            if k in p.get("optional_loops", ()):
+                                continue
+                            raise ExtractError("lost anchor: loop %d of `%s` not found" % (k, p["anchor"]))
+                        c_idx = match_brace(body, hdrs[k - 1][1])
+                        ends.append((c_idx + (1 if kind == "loopafters" else 0), kind, k))
+                for c_idx, kind, k in sorted(ends, reverse=True):
+                    body = body[:c_idx] + "\n" + "\n".join(p[kind][k]) + "\n" + body[c_idx:]
             # loops: splice from the last to the first so indices stay valid
             if p["loops"]:
                 hdrs = loop_headers(body)
@@ -623,6 +653,24 @@ def build_unit(ws, unit_name):
                     body = body[:b_idx] + "\n" + "\n".join(p["loops"][k]) + "\n" + body[b_idx:]
             for ent in p["after"]:
                 body = splice_stmt(body, ent["stmt"], "\n".join(ent["text"]), ent["before"])
+            if p.get("tail"):
+                depth, bi, last = 0, 0, 0
+                while bi < len(body):
+                    sk = _skip_noncode(body, bi)
+                    if sk is not None:
+                        bi = sk
+                        continue
+                    ch = body[bi]
+                    if ch in "([{":
+                        depth += 1
+                    elif ch in ")]}":
+                        depth -= 1
+                        if ch == "}" and depth == 0:
+                            last = bi + 1
+                    elif ch == ";" and depth == 0:
+                        last = bi + 1
+                    bi += 1
+                body = body[:last] + "\n" + "\n".join(p["tail"]) + "\n" + body[last:]
             if p["track"] is not None:
                 body = autotrack(body, p["track"], p["finals"])
             out.append(ln.replace("/*@@body*/", body))
